@@ -45,8 +45,8 @@ DONE = {
   note="The live cases are scheduled by the real network (not a pure function of the seed; only timing-independent clauses are judged, and only after a stable closing sweep). Channels have capacity 4096 so the actor never blocks; a post-state that differs from the model is attributed to C02 and only model-independent clauses are judged.",
   technique=PBT + ": event-sequence oracle from the reference model over observed pre-states"),
  "C14": dict(level="exploration",
-  text="Sequential client histories over three documents covering every request kind of the store handle, plus a concurrent variant (two client threads; Wing-Gong linearizability search against the same model) and a pipelined variant (one client enqueues a batch without awaiting any reply; replies and final contents must equal sequential execution in issue order); a per-document model {exists, handles, sync, subscribers, entries} predicts each reply's success class, close's boolean, get_state and the contents; failed requests (including store mutations that fail inside the store, e.g. settings for unknown documents) must change nothing; the store returned by shutdown must hold every acknowledged write.",
-  note="Sequential variant: one client, replies-in-request-order is checked as 'each reply reflects all earlier requests'. Concurrent variant: two client threads, <= 5 requests each on one document; the recorded history must be linearizable w.r.t. the model whatever interleaving the OS produced (verdict independent of the interleaving, coverage of interleavings is whatever the OS gives).",
+  text="Sequential client histories over three documents covering every request kind of the store handle, plus a concurrent variant (two or three client threads; Wing-Gong linearizability search against the same model) and a pipelined variant (one client enqueues a batch without awaiting any reply; replies and final contents must equal sequential execution in issue order); a per-document model {exists, handles, sync, subscribers, entries} predicts each reply's success class, close's boolean, get_state and the contents; failed requests (including store mutations that fail inside the store, e.g. settings for unknown documents) must change nothing; the store returned by shutdown must hold every acknowledged write.",
+  note="Sequential variant: one client, replies-in-request-order is checked as 'each reply reflects all earlier requests'. Concurrent variant: two client threads with <= 5 requests each, or three with <= 4 each, on one document; the recorded history must be linearizable w.r.t. the model whatever interleaving the OS produced (verdict independent of the interleaving, coverage of interleavings is whatever the OS gives).",
   technique=PBT + ": history vs. open/close/sync state-machine model; linearizability check for concurrent clients"),
  "C09": dict(level="exploration",
   text="Frame streams built from real session transcripts are written with the real encoder, cut at generated points (also inside length prefixes), truncated and corrupted byte by byte, and decoded with the real decoder; signed entries and key pairs are compared with an independent byte-layout encoder and the suite's golden snapshots; tickets, capabilities, policies and head sets are round-tripped; random and mutated-valid byte strings are fed to ten decoder targets whose bodies contain the round-trip oracle. The thorough tier adds a coverage-guided libFuzzer campaign (cargo-fuzz) over the same target bodies.",
